@@ -17,4 +17,16 @@ def modelWiring : List (String × List String) := [
     (if enforcesEq (.lossMin (some (true, false))) false then ["is_eq_constraint_satisfied_all"] else [])
       ++ (if enforcesIneq (.lossMin (some (false, true))) then ["is_ineq_constraint_satisfied_all"] else []))]
 
+/-- the guards under which the model performs each test: which flag has to be set for `enforcesEq` / `enforcesIneq` -/
+def modelGuards : List (String × String × String) := [
+  ("ProjectedLinearEstimator", "", "is_physical_qobjects_all"),
+  ("LinearEstimator",
+    (if enforcesEq .linear true && !enforcesEq .linear false then "para" else ""), "is_eq_constraint_satisfied_all"),
+  ("LossMinimizationEstimator",
+    (if enforcesEq (.lossMin (some (true, false))) false && !enforcesEq (.lossMin (some (false, true))) false
+     then "on_algo_eq_constraint" else ""), "is_eq_constraint_satisfied_all"),
+  ("LossMinimizationEstimator",
+    (if enforcesIneq (.lossMin (some (false, true))) && !enforcesIneq (.lossMin (some (true, false)))
+     then "on_algo_ineq_constraint" else ""), "is_ineq_constraint_satisfied_all")]
+
 end QM.C15.Gen
